@@ -434,3 +434,13 @@ package table
 //@ func (*RouteTargetMembershipHandler).HasRouteTarget
 //@   pure
 //@   spec-only
+//@ props C09
+//@ func (*Path).GetClusterList
+//@   pure
+//@   spec-only
+//@ func (*Path).GetAsList
+//@   pure
+//@   spec-only
+//@ func (*Path).String
+//@   pure
+//@   spec-only
